@@ -106,6 +106,7 @@ def handle (toks : List String) : String :=
   | "selexp" :: _ => (handleExpo toks).getD "bad-op"
   | "mexp" :: _ => (handleExpo toks).getD "bad-op"
   | "sexp" :: _ => (handleExpo toks).getD "bad-op"
+  | "profit" :: rest => (DriverSim.handleProfit rest).getD "bad-op"
   | "simorder" :: rest => (DriverSim.handle rest).getD "bad-op"
   | "validate" :: rest => (handleValidate rest).getD "bad-op"
   | _ => "bad-op"
